@@ -12,6 +12,8 @@ pub struct PreProcessor<T: TokenStream> {
     token_stream: T,
     macros: HashSet<EcoString>,
     error: Option<EcoString>,
+    /// number of conditionals entered whose `#endif` has not been seen yet
+    open_conditionals: usize,
 }
 
 impl<T: TokenStream> TokenStream for PreProcessor<T> {
@@ -42,6 +44,7 @@ impl<T: TokenStream> PreProcessor<T> {
             token_stream,
             macros: HashSet::new(),
             error: None,
+            open_conditionals: 0,
         }
     }
 
@@ -60,6 +63,10 @@ impl<T: TokenStream> PreProcessor<T> {
             T![#else] => self.process_else(),
             T![#endif] => self.process_endif(),
             T![#define] => self.process_define(),
+            TokenKind::Eof if self.open_conditionals > 0 => {
+                self.open_conditionals = 0;
+                self.error("reached EOF without matching #endif")
+            }
             kind => kind,
         }
     }
@@ -76,10 +83,11 @@ impl<T: TokenStream> PreProcessor<T> {
                 let macro_name = self.token_stream.text(start..end);
                 let macro_defined = self.macros.contains(macro_name);
 
+                self.open_conditionals += 1;
                 if let (IfKind::Defined, false) | (IfKind::NotDefined, true) =
                     (if_kind, macro_defined)
                 {
-                    self.eat_until_else_or_endif();
+                    return self.eat_until_else_or_endif();
                 }
                 TokenKind::PreProcessor
             }
@@ -91,11 +99,11 @@ impl<T: TokenStream> PreProcessor<T> {
     }
 
     fn process_else(&mut self) -> TokenKind {
-        self.eat_until_else_or_endif();
-        TokenKind::PreProcessor
+        self.eat_until_else_or_endif()
     }
 
     fn process_endif(&mut self) -> TokenKind {
+        self.open_conditionals = self.open_conditionals.saturating_sub(1);
         TokenKind::PreProcessor
     }
 
@@ -121,7 +129,9 @@ impl<T: TokenStream> PreProcessor<T> {
         }
     }
 
-    fn eat_until_else_or_endif(&mut self) {
+    /// Skips a disabled region. The region, including the directive that ends it, becomes one
+    /// `PreProcessor` token, or an `Error` token if the file ends first.
+    fn eat_until_else_or_endif(&mut self) -> TokenKind {
         let mut depth = 1;
         loop {
             match self.token_stream.eat() {
@@ -131,12 +141,16 @@ impl<T: TokenStream> PreProcessor<T> {
                 T![#endif] if depth >= 2 => {
                     depth -= 1;
                 }
-                T![#else] | T![#endif] if depth == 1 => {
-                    break;
+                T![#else] if depth == 1 => {
+                    return TokenKind::PreProcessor;
+                }
+                T![#endif] if depth == 1 => {
+                    self.open_conditionals = self.open_conditionals.saturating_sub(1);
+                    return TokenKind::PreProcessor;
                 }
                 TokenKind::Eof => {
-                    self.error("reached EOF without matching #endif");
-                    break;
+                    self.open_conditionals = 0;
+                    return self.error("reached EOF without matching #endif");
                 }
                 _ => {}
             }
